@@ -33,12 +33,18 @@ def _finite(lo, hi):
 @st.composite
 def double_bounds(draw, positive=False, allow_degenerate=True):
   cls = draw(st.sampled_from(
-      ['unit', 'tiny', 'neg', 'mixed', 'wide', 'generic', 'degenerate', 'huge']
+      ['unit', 'tiny', 'neg', 'mixed', 'wide', 'generic', 'degenerate', 'huge',
+       'decimal']
       if not positive else ['unit+', 'tiny', 'wide+', 'generic+', 'huge+'] + (
           ['degenerate+'] if allow_degenerate else [])))
   if cls == 'degenerate+':
     a = draw(st.sampled_from([0.1, 1e-5, 123.456, 3.3, 1.0]))
     return a, a
+  if cls == 'decimal':
+    # bounds as people type them: -0.1 .. 0.3, 1.1 .. 2.3 (not exactly
+    # representable, the usual source of one-ulp overshoots)
+    a = draw(st.integers(-30, 30)) / 10.0
+    return a, a + draw(st.integers(1, 40)) / 10.0
   if cls == 'unit':
     return 0.0, 1.0
   if cls == 'unit+':
